@@ -349,6 +349,17 @@ def contains(ctx, container, item):
         if not (is_str(item) or isinstance(item, Choice)):
             raise_py(TypeError, "'in <string>' requires string as left operand")
         return str_contains(ctx, container, item)
+    if type(container).__name__ == 'SymDict':
+        cs = []
+        for kk, _ in container.items:
+            e = val_eq(kk, item)
+            if e is True:
+                return True
+            if e is not False:
+                cs.append(zbool(e))
+        if not cs:
+            return False
+        return simp(z3.Or(*cs)) if len(cs) > 1 else simp(cs[0])
     if isinstance(container, OpaqueVal) and container.tag == 'dictlike':
         return simp(ufun('has_key', container.term.sort(), PyStr, z3.BoolSort())(container.term, str_term(item)))
     if container is None:
@@ -761,6 +772,26 @@ def str_strip(ctx, s, chars, mode):
         raise Unsupported("strip with symbolic chars")
     if isinstance(s, Choice):
         return s.map(lambda v: getattr(v, name)(chars))
+    if isinstance(s, SStr) and s.all_chars() and getattr(ctx, 'exact_strip', False) and len(s.segs) <= 64:
+        # exact, by case split on each end character (units that need the characters of the stripped text)
+        cs = list(s.segs)
+        codes = [ord(c) for c in chars] if chars is not None else [9, 10, 11, 12, 13, 28, 29, 30, 31, 32]
+        if chars is None:
+            for x in cs:
+                if is_z3(x) and not ctx.is_true(x < 128):
+                    raise Unsupported("whitespace strip of non-ASCII symbolic text")
+
+        def in_set(x):
+            if isinstance(x, int):
+                return x in codes
+            return simp(z3.Or(*[x == k for k in codes]))
+        if mode in ('b', 'r'):
+            while cs and ctx.decide(in_set(cs[-1])):
+                cs.pop()
+        if mode in ('b', 'l'):
+            while cs and ctx.decide(in_set(cs[0])):
+                cs.pop(0)
+        return mkstr(cs)
     if isinstance(s, SStr) and s.all_chars() and chars is not None and len(s.segs) <= 128:
         # exact on concrete-shape strings when the path condition determines which end characters are in `chars`
         cs = list(s.segs)
